@@ -18,7 +18,7 @@ ASSUMPTIONS = ["math.sqrt real", "the cubic's sample list lies in [0,1] (C16: wa
 LEVEL_TEXT = ("theorems: line_tOfPoint_inverse (regenerated Line.tOfPoint returns exactly t for the point at t, for every real t, unless the line is degenerate in both coordinates), "
               "line_off_carrier (-1 when every carrier point is >= 2e-7 away), quad_tOfPoint_root (a result other than -1 is a root in [0,1] of the x-equation within 2e-7 of a "
               "root in [0,1] of the y-equation; built on quadraticRoots_mem_iff), matchRoots_complete, quad_constant_coordinate_counterexample (K5), cubic_tOfPoint_range "
-              "(the coarse search answers in [0,1] for every sample list and distance function)")
+              "(the coarse search with the repaired halving loop answers in [0,1] for every non-empty sample list and every distance function)")
 LEVEL_NOTE = "trusted: Lean kernel + Mathlib, axioms {propext, Classical.choice, Quot.sound}, translator, hand models of the quadratic/cubic lookups (correspondence per run)"
 TECHNIQUE = "symbolic tracing to Lean + field algebra; hand model of the matching / halving loops; list induction"
 
